@@ -60,6 +60,8 @@ type Exec struct {
 	slotIDs map[*V]int64
 	gobTab  []gobItem // encoding/gob FIFO model (per path)
 	csvTab  [][]V     // encoding/csv record FIFO model (per path)
+	evlog   *evLog    // C18 memory-event log (nil unless the harness called vShareBarrier)
+	oblNoAssume bool
 
 	// if-conversion
 	ipdomCache map[*ssa.Function]map[*ssa.BasicBlock]*ssa.BasicBlock
@@ -606,6 +608,9 @@ func (fr *frame) visit(instr ssa.Instruction) int {
 		fr.env[in] = ex.lookup(fr, in)
 	case *ssa.MapUpdate:
 		m := fr.get(in.Map).(*MapV)
+		if ex.evlog != nil {
+			ex.evMap(m, true)
+		}
 		if m == nil {
 			ex.throw("assignment to entry in nil map")
 		}
@@ -687,6 +692,9 @@ func (ex *Exec) lookupMethod(t types.Type, meth *types.Func) *ssa.Function {
 func (ex *Exec) load(p Ptr, t types.Type) V {
 	switch {
 	case p.S != nil:
+		if ex.evlog != nil {
+			ex.evLoadSlot(p.S)
+		}
 		return ex.coerceLoad(*p.S, t)
 	case p.B != nil:
 		return ex.bufLoad(p.B, p.Off, t)
@@ -775,6 +783,9 @@ func (ex *Exec) provToPtr(d ProvInt) Ptr {
 func (ex *Exec) store(p Ptr, t types.Type, v V, guard *Term) {
 	switch {
 	case p.S != nil:
+		if ex.evlog != nil {
+			ex.evStoreSlot(p.S, guard)
+		}
 		if guard != nil {
 			old := *p.S
 			ot, ok1 := old.(*Term)
@@ -1163,6 +1174,9 @@ func (ex *Exec) lookup(fr *frame, in *ssa.Lookup) V {
 	switch xt := in.X.Type().Underlying().(type) {
 	case *types.Map:
 		m := x.(*MapV)
+		if ex.evlog != nil {
+			ex.evMap(m, false)
+		}
 		var v V
 		found := false
 		if m != nil {
